@@ -375,8 +375,9 @@ def defineOk (T : Table) (c : ClassDef) : Except Refusal Unit :=
   -- extra policy cannot be loosened, no new fields below a forbidding parent
   else if parentForbids && effExtra T c != .forbid then .error .typeError
   else if parentForbids && own.any (fun n => (getHint n bhints).isNone) then .error .typeError
-  -- make_mandatory: the field must exist in a base and must not be annotated here
-  else if c.mandatory.any (fun n => (getHint n bhints).isNone || own.contains n) then .error .valueError
+  -- make_mandatory: the field must exist in a base (`name in mcls.__fields__`: an inherited constant is a
+  -- field too and `field_parent_type` finds the `Any` that `add_const_fields` wrote) and must not be annotated here
+  else if c.mandatory.any (fun n => ((getHint n bhints).isNone && !hasKey n bconsts) || own.contains n) then .error .valueError
   else
     -- the fields as the decorator sees them (before any of them becomes a constant)
     let hints := (ownHints bhints c).foldl (fun acc (p : Str × Ty) => setHint p.1 p.2 acc) bhints
